@@ -558,12 +558,12 @@ Section ReadProofs.
   Lemma rd_plain : forall fuel s rest amount,
     pgood s rest -> 0 < amount ->
     exists out s' rest', rd fuel s amount = ROk _ _ out s' /\ rest = out ++ rest' /\
-      pgood s' rest' /\ (out = [] -> rest = []).
+      pgood s' rest' /\ (out = [] -> rest = []) /\ len out <= amount.
   Proof.
     intros fuel s rest amount Hg Ha. destruct s as [f w rdr].
     destruct rdr as [| |buf|k st inbuf fin]; unfold pgood in Hg; simpl in Hg; try contradiction.
     - destruct Hg as [H1 H2]. subst. exists [], (mkr _ _ f w RComplete), [].
-      destruct fuel; simpl; repeat split; auto.
+      destruct fuel; simpl; repeat split; auto; rewrite len_nil; lia.
     - assert (HR : rd fuel (mkr _ _ f w RPlain) amount =
                    (let (got, f') := partial_read f amount in ROk _ _ got (mkr _ _ f' w RPlain)))
         by (destruct fuel; reflexivity).
@@ -588,9 +588,11 @@ Section ReadProofs.
       + rewrite app_assoc, takeN_dropN. symmetry. exact Hb.
       + unfold pgood. simpl. destruct (dropN sending buf) eqn:ED; simpl; [reflexivity|].
         split; [discriminate|reflexivity].
-      + intros Hn. exfalso.
-        assert (L : len (takeN sending buf) = 0) by (rewrite Hn; reflexivity).
-        rewrite len_takeN in L. unfold sending in L. lia.
+      + split.
+        * intros Hn. exfalso.
+          assert (L : len (takeN sending buf) = 0) by (rewrite Hn; reflexivity).
+          rewrite len_takeN in L. unfold sending in L. lia.
+        * rewrite len_takeN. unfold sending. lia.
   Qed.
 
   Lemma read_all_plain : forall n fuel s rest amt i,
@@ -599,7 +601,7 @@ Section ReadProofs.
   Proof.
     induction n as [|n IHn]; intros fuel s rest amt i Hg Hamt Hn; [lia|].
     simpl.
-    destruct (rd_plain fuel s rest (amt i) Hg (Hamt i)) as [out [s' [rest' [HR [Hp [Hg' He]]]]]].
+    destruct (rd_plain fuel s rest (amt i) Hg (Hamt i)) as [out [s' [rest' [HR [Hp [Hg' [He _]]]]]]].
     rewrite HR. destruct out as [|b out].
     - rewrite (He eq_refl). exists [0]. reflexivity.
     - destruct (IHn fuel s' rest' amt (S i) Hg' Hamt) as [sizes HS].
